@@ -57,6 +57,7 @@ namespace
     {
         // placement: after the occ-th occurrence of loop event `code` (hook mode) / after `delay` real us (free mode)
         std::int64_t code{0}, occ{0}, kind{1}, ncode{0}, nocc{0}, delay{0};
+        bool         early{false};  // free mode: counted from the beginning of graph.start, not from its end
         std::thread  th;
         bool         launched{false}, landed{false}, unlocked{false}, released{false}, done{false};
         steady::time_point t_done{};
@@ -84,6 +85,7 @@ namespace
         Action                      *inflight{nullptr};
         bool                         stutter{false};
         bool                         started{false};
+        bool                         start_begun{false};  // graph.start entered (run_storage's reset is behind us)
         bool                         abort{false};
         bool                         run_done{false};
         bool                         long_slice{false};  // a waiter that misses its notify sleeps for seconds
@@ -126,7 +128,7 @@ namespace
         {
             {
                 std::unique_lock lk{H->m};
-                H->cv.wait_for(lk, kDeadline, [&] { return H->started || H->run_done; });
+                H->cv.wait_for(lk, kDeadline, [&] { return H->started || H->run_done || (a->early && H->start_begun); });
             }
             std::this_thread::sleep_for(std::chrono::microseconds(a->delay));
             {
@@ -395,6 +397,8 @@ namespace
         {
             std::lock_guard lk{H->m};
             H->in_node_code = true;
+            H->start_begun  = true;
+            H->cv.notify_all();
         }
         void on_after_start_graph(const GraphView &) override
         {
@@ -463,6 +467,7 @@ namespace
             {
                 auto a = std::make_unique<Action>();
                 a->delay = l[1]; a->kind = l[2];
+                a->early = l.size() >= 4 && l[3] != 0;
                 h.actions.push_back(std::move(a));
             }
             else if (l[0] == 6 && l.size() >= 2) { nnodes = l[1]; }
@@ -505,7 +510,11 @@ namespace
             schema.uses_scheduler = true;
             schema.node_kind      = NodeKind::PullSource;
             NodeCallbacks cb;
-            cb.start    = [i](const NodeView &v, DateTime t) { run_ops(i, v, t, -1); };
+            cb.start    = [i](const NodeView &v, DateTime t) {
+                // placement point "while the start hook of node i is executing" (hook mode)
+                if (H->hooks) { loop_event({9, i}); }
+                run_ops(i, v, t, -1);
+            };
             cb.evaluate = [i](const NodeView &v, DateTime t) {
                 const std::int64_t k = H->runs[(std::size_t)i]++;
                 if (H->hooks) { loop_event({18, i, k}); }
